@@ -343,7 +343,41 @@ instance : Enc Sx := ⟨id⟩
 
 def encTrace (tr : List (L × Nat)) : Sx := .l (tr.map fun p => .l [enc p.1, enc p.2])
 
-def ic (_B : Backend) (op : String) (args : List Sx) (impl : Sx) : Option Outcome :=
+/-- C08 speaks about segmented arrays satisfying the size invariant and about typed maps; for the
+    operations (not the checked constructors) nothing is compared outside that precondition -/
+def icPre (op : String) (args : List Sx) : Bool :=
+  let icOk := fun (x : Sx) => match (dec x : Option (IC FinFun)), (dec x : Option (IC L)) with
+    | some c, _ => c.valid && c.sources.wf && c.values.wf
+    | _, some c => c.valid && c.sources.wf
+    | _, _ => true
+  let allOk := args.all icOk
+  let typed := match op, args with
+    | "ic.map_indexes_ff", [c, x] | "ic.indexed_values_ff", [c, x] =>
+      (match (dec c : Option (IC FinFun)), (dec x : Option FinFun) with
+       | some c, some x => x.wf && x.target == c.len | _, _ => true)
+    | "ic.map_indexes_sf", [c, x] | "ic.indexed_values_sf", [c, x] =>
+      (match (dec c : Option (IC L)), (dec x : Option FinFun) with
+       | some c, some x => x.wf && x.target == c.len | _, _ => true)
+    | "ic.map_values", [c, x] =>
+      (match (dec c : Option (IC FinFun)), (dec x : Option FinFun) with
+       | some c, some x => x.wf && c.values.target == x.source | _, _ => true)
+    | "ic.map_semifinite", [c, x] =>
+      (match (dec c : Option (IC FinFun)), (dec x : Option L) with
+       | some c, some x => c.values.target == x.length | _, _ => true)
+    | "ic.flatmap", [c, d] =>
+      (match (dec c : Option (IC FinFun)), (dec d : Option (IC FinFun)) with
+       | some c, some d => c.values.target == d.len | _, _ => true)
+    | "ic.flatmap_sources", [c, d] =>
+      (match (dec c : Option (IC FinFun)), (dec d : Option (IC L)) with
+       | some c, some d => c.values.table.length == d.len | _, _ => true)
+    | "ic.flatmap_sources_sf", [c, d] =>
+      (match (dec c : Option (IC L)), (dec d : Option (IC L)) with
+       | some c, some d => c.values.length == d.len | _, _ => true)
+    | _, _ => true
+  let constructor := op.startsWith "ic.new" || op.startsWith "ic.from_semifinite" || op == "ic.ops_new"
+  constructor || (allOk && typed)
+
+def icOps (_B : Backend) (op : String) (args : List Sx) (impl : Sx) : Option Outcome :=
   match op, args with
   | "ic.new_ff", [s, v] => do
     let s : FinFun ← dec s; let v : FinFun ← dec v
@@ -436,6 +470,11 @@ def ic (_B : Backend) (op : String) (args : List Sx) (impl : Sx) : Option Outcom
     let r := Operations.iter (O := Nat) ⟨x, a, b⟩
     pure (exact (r.bind fun l => .ok (Sx.l (l.map fun t => Sx.l [enc t.1, enc t.2.1, enc t.2.2]))) impl)
   | _, _ => none
+
+def ic (B : Backend) (op : String) (args : List Sx) (impl : Sx) : Option Outcome :=
+  (icOps B op args impl).map fun o =>
+    if o.agree || icPre op args then o
+    else { o with agree := true, rel := "outside-precondition(invalid-or-ill-typed-segmented-array)" }
 
 end Drv
 end OH
